@@ -49,6 +49,13 @@ func c09Pre(pre int) *stun.Message {
 		return stun.MustBuild(stun.BindingRequest, tid, stun.NewUsername("u"), stun.Fingerprint, stun.NewSoftware("after"))
 	case 6: // FINGERPRINT first, two attributes after it
 		return stun.MustBuild(stun.BindingRequest, tid, stun.Fingerprint, stun.NewRealm("r"), stun.NewNonce("n"))
+	case 9, 10, 11, 12, 13: // a FINGERPRINT-typed attribute whose value is not 4 bytes (added raw / decoded from a peer); 13: followed by a regular one
+		m := stun.MustBuild(stun.BindingRequest, tid, stun.NewUsername("u"))
+		m.Add(stun.AttrFingerprint, bytesOf([]int{0, 3, 5, 8, 3}[pre-9]))
+		if pre == 13 {
+			_ = stun.Fingerprint.AddTo(m)
+		}
+		return m
 	case 7, 8: // struct fields assigned directly and not (yet) written to Raw; 7 carries a FINGERPRINT
 		var m *stun.Message
 		if pre == 7 {
@@ -127,6 +134,23 @@ func c09Setter(name string, n, pre int) (s stun.Setter, accept bool, classOK fun
 			return &stun.OtherAddress{IP: net.IP(ip), Port: 7}, ipOK, badIP, "ErrBadIPLength"
 		}
 	}
+	if len(name) > 6 && name[:6] == "magic:" { // magic:<k>:<setter>: the value starts with a byte string that means something elsewhere in STUN
+		prefix := c09Magic[int(name[6]-'0')]
+		v := bytesOf(n)
+		copy(v, prefix)
+		switch name[8:] {
+		case "Username":
+			return stun.Username(v), n <= 513, overflow, "IsAttrSizeOverflow"
+		case "Realm":
+			return stun.Realm(v), n <= 763, overflow, "IsAttrSizeOverflow"
+		case "Nonce":
+			return stun.Nonce(v), n <= 763, overflow, "IsAttrSizeOverflow"
+		case "Software":
+			return stun.Software(v), n <= 763, overflow, "IsAttrSizeOverflow"
+		case "ErrorCodeAttribute":
+			return stun.ErrorCodeAttribute{Code: 401, Reason: v}, n <= 763, overflow, "IsAttrSizeOverflow"
+		}
+	}
 	if len(name) > 5 && name[:5] == "utf8:" { // utf8:<width>:<setter>
 		width := int(name[5] - '0')
 		v := utf8Of(n, width)
@@ -171,10 +195,14 @@ func c09Setter(name string, n, pre int) (s stun.Setter, accept bool, classOK fun
 	case "OtherAddress":
 		return &stun.OtherAddress{IP: net.IP(bytesOf(n)), Port: 7}, ipOK, badIP, "ErrBadIPLength"
 	case "MessageIntegrity":
-		return stun.MessageIntegrity(bytesOf(n)), pre != 3 && pre != 5 && pre != 6 && pre != 7, func(err error) bool { return errors.Is(err, stun.ErrFingerprintBeforeIntegrity) }, "ErrFingerprintBeforeIntegrity"
+		return stun.MessageIntegrity(bytesOf(n)), pre != 3 && pre != 5 && pre != 6 && pre != 7 && (pre < 9 || pre > 13), func(err error) bool { return errors.Is(err, stun.ErrFingerprintBeforeIntegrity) }, "ErrFingerprintBeforeIntegrity"
 	}
 	panic("c09: unknown setter " + name)
 }
+
+// c09Magic: the RFC 8489 nonce cookie with its feature characters, the magic cookie, the FINGERPRINT XOR constant, a
+// quoted string, an all-zero and an all-0xFF start.
+var c09Magic = [][]byte{[]byte("obMatJos2AAAA"), {0x21, 0x12, 0xA4, 0x42}, []byte("STUN"), []byte("\"quoted\""), {0, 0, 0, 0, 0, 0, 0, 0}, {0xFF, 0xFF, 0xFF, 0xFF, 0xFF, 0xFF, 0xFF, 0xFF}}
 
 type setterFunc func(m *stun.Message) error
 
@@ -313,7 +341,7 @@ func init() {
 					c.Sample(k)
 				}
 			}
-			for pre := 0; pre < 9; pre++ {
+			for pre := 0; pre < 14; pre++ {
 				for _, ts := range []struct {
 					name string
 					max  int
@@ -331,6 +359,18 @@ func init() {
 						for width := 2; width <= 4; width++ {
 							for n := ts.max - 8; n <= ts.max+300; n++ {
 								do(c09Case{Setter: fmt.Sprintf("utf8:%d:%s", width, ts.name), N: n, Pre: pre})
+							}
+						}
+					}
+				}
+				if pre < 2 {
+					for _, ts := range []struct {
+						name string
+						max  int
+					}{{"Username", 513}, {"Realm", 763}, {"Nonce", 763}, {"Software", 763}, {"ErrorCodeAttribute", 763}} {
+						for mk := range c09Magic {
+							for n := ts.max - 8; n <= ts.max+64; n++ {
+								do(c09Case{Setter: fmt.Sprintf("magic:%d:%s", mk, ts.name), N: n, Pre: pre})
 							}
 						}
 					}
